@@ -132,6 +132,9 @@ func labelsFromBytes(buf []byte) ([]string, error) {
 				return nil, errors.New("rfc1035label: pointer buffer too short")
 			}
 			off := int(buf[pos-1]&^0xc0)<<8 + int(buf[pos])
+			if off >= len(buf) {
+				return nil, errors.New("rfc1035label: pointer offset beyond the buffer")
+			}
 			oldPos = pos + 1
 			pos = off
 		} else {
